@@ -370,3 +370,41 @@ HEAP_HEADERS["C12"] = ("From CppUVerif Require Import lib.CSem lib.CMem lib.CHea
                        "Inductive aev12 := AHandler (name : string) (index : Z) (opt : string) (flags : list Z).\n"
                        "Section Parse.\nVariable arg_is : Z -> string -> Z.\nVariable arg_starts : Z -> string -> Z.\n")
 HEAP_FOOTERS["C12"] = "\nEnd Parse.\n"
+
+# ------------------------------------------------------------------ C16: the collection of results and the writers of JUnitTestOutput
+JUO = "src/CppUTest/JUnitTestOutput.cpp"
+_G16 = [["evs", "list jev"], ["nx", "Z"], ["times", "list Z"], ["willruns", "list Z"], ["timestr", "Z"]]
+_C16M = ["resetTestGroupResult", "writeXmlHeader", "writeTestSuiteSummary", "writeProperties", "writeFailure", "writeTestCases", "writeFileEnding",
+         "writeTestGroupToFile"]
+_C16C = {n: {"fn": "src_junit_" + n, "method": True} for n in _C16M}
+_C16C["writeFailure"] = {"fn": "src_junit_writeFailure", "method": True}
+_C16C.update({
+    "getGroup": {"recv_field": ["UtestShell", "group_"]}, "getName": {"recv_field": ["UtestShell", "name_"]},
+    "getFile": {"recv_field": ["UtestShell", "file_"]}, "getLineNumber": {"recv_field": ["UtestShell", "lineNumber_"]},
+    "willRun": {"pop": "willruns"}, "GetPlatformSpecificTimeInMillis": {"pop": "times"}, "GetPlatformSpecificTimeString": "timestr",
+    "getCurrentTestTotalExecutionTime": {"recv_field": ["TestResult", "currentTestTotalExecutionTime_"]},
+    "getCurrentGroupTotalExecutionTime": {"recv_field": ["TestResult", "currentGroupTotalExecutionTime_"]},
+    "getCheckCount": {"recv_field": ["TestResult", "checkCount_"]},
+    "getFileName": {"recv_field": ["TestFailure", "fileName_"]}, "getMessage": {"recv_field": ["TestFailure", "message_"]},
+    "getFailureLineNumber": {"recv_field": ["TestFailure", "lineNumber_"]},
+    "operator=": {"assign_opaque": True}, "isEmpty": {"text_pred1": "text_empty"},
+    "StringFromFormat": {"format_event": "JFormat"}, "writeToFile": {"write_event": "JWrite"}, "asCharString": {"recv_value": True},
+    "openFileForWrite": {"event": "JOpen {0}", "args": True}, "createFileName": "{0}", "closeFile": {"event": "JClose"}})
+HEAP_RECORDS["C16"] = [["UtestShell", UTS], ["TestResult", TRS], ["TestFailure", TFL], ["JUnitTestCaseResultNode", JUO],
+                       ["JUnitTestGroupResult", JUO], ["JUnitTestOutputImpl", JUO], ["JUnitTestOutput", JUO, "own"]]
+HEAP_GROUPS["C16"] = [dict(file=JUO, name="JUnitTestOutput::" + n, coq="src_junit_" + n, calls=_C16C, ghosts=_G16, opaque_classes=["SimpleString"],
+                           string_literals={'""': "0"}, new_event="JNew {p}", delete_event="JDelete {p}") for n in
+                      _C16M + ["printCurrentTestStarted", "printCurrentTestEnded", "printCurrentGroupEnded", "printFailure"]]
+HEAP_HEADERS["C16"] = ("From CppUVerif Require Import lib.CSem lib.CMem lib.CHeap.\nLocal Open Scope Z_scope.\n"
+                       "(* translated by tools/cxx2heap.py: JUnitTestOutput's collection of results (test started / ended / failure, reset between groups) and "
+                       "its writers. A text is one opaque cell holding an integer that identifies it (0 = the empty text); new / delete of a result node "
+                       "or of the kept failure are the ghost events JNew / JDelete (a new node has all cells zero, as its constructor says; the kept "
+                       "failure is a copy of the cells of the one reported); StringFromFormat(\"fmt\", args) yields a fresh text identity (ghost counter nx) "
+                       "defined by the event JFormat id fmt args; writeToFile(x) is the event JWrite x; an argument is JLit \"literal\" | JEnc t "
+                       "(encodeXmlText(t)) | JNum n | JTxt t; openFileForWrite(createFileName(g)) is JOpen g; the clock and willRun() are ghost "
+                       "streams; isEmpty() on a text is the Section variable text_empty *)\n"
+                       "Inductive jarg := JLit (s : string) | JEnc (text : Z) | JNum (n : Z) | JTxt (text : Z).\n"
+                       "Inductive jev := JNew (p : hptr) | JDelete (p : hptr) | JFormat (id : Z) (fmt : string) (args : list jarg) | JWrite (a : jarg) | "
+                       "JOpen (group : Z) | JClose.\n"
+                       "Section JUnit.\nVariable text_empty : Z -> Z.\n")
+HEAP_FOOTERS["C16"] = "\nEnd JUnit.\n"
